@@ -179,6 +179,7 @@ class FakeSnowflakeCursor:
             .transform(transforms.regex_replace)
             .transform(transforms.regex_substr)
             .transform(transforms.values_columns)
+            .transform(transforms.to_binary)
             .transform(transforms.to_date)
             .transform(transforms.to_decimal)
             .transform(transforms.try_to_decimal)
